@@ -65,3 +65,8 @@ Lemma take_0 (s : bytes) : take 0 s = [].
 Proof. destruct s; reflexivity. Qed.
 Lemma drop_0 (s : bytes) : drop 0 s = s.
 Proof. destruct s; reflexivity. Qed.
+
+Lemma take_app_len (a b : bytes) (n : N) : lenN a = n -> take n (a ++ b) = a.
+Proof. intros <-. apply take_app_exact. Qed.
+Lemma drop_app_len (a b : bytes) (n : N) : lenN a = n -> drop n (a ++ b) = b.
+Proof. intros <-. apply drop_app_exact. Qed.
